@@ -271,7 +271,7 @@ class Inter:
         """Fn of a workspace call value, else None"""
         if tag(v) != "call":
             return None
-        return self.world.by_pretty.get(payload(v)[0])
+        return self.world.fn_named(payload(v)[0])
 
     def param_map(self, fn, args):
         m = {}
@@ -297,7 +297,7 @@ class Inter:
         else:
             v2 = self._field_through(v) if t == "field" else v
         if tag(v2) == "call" and depth > 0:
-            fn = self.world.by_pretty.get(payload(v2)[0])
+            fn = self.world.fn_named(payload(v2)[0])
             if fn is not None and is_integer_fn(fn.pretty):
                 fn = None  # the signed integer type's methods are primitives of the formula language (norm.py)
             if fn is not None:
@@ -417,7 +417,7 @@ class Inter:
             b = kids(b)[0]
         if tag(b) != "call":
             return f
-        fn = self.world.by_pretty.get(payload(b)[0])
+        fn = self.world.fn_named(payload(b)[0])
         if fn is None or is_integer_fn(fn.pretty) or self._ft_depth > 3:
             return f
         self._ft_depth += 1
